@@ -100,6 +100,39 @@ func newRegWorldWith(prog *load.Program, specs []importSpec, moqPkg string, type
 	return w, nil
 }
 
+// identifierModels: go/token.IsIdentifier, go/token.IsKeyword and types.Universe.Lookup on constant names
+// (a generated alias is tested for being usable as a package qualifier); undecided on anything else.
+func identifierModels(m *interp.Machine) {
+	onConst := func(what string, f func(string) bool) func(m *interp.Machine, pos token.Pos, recv interp.Value, a []interp.Value) (interp.Value, error) {
+		return func(m *interp.Machine, pos token.Pos, recv interp.Value, a []interp.Value) (interp.Value, error) {
+			if len(a) == 1 {
+				if s, ok := a[0].(*interp.Sym); ok {
+					if c, ok := s.Concrete(); ok {
+						return f(c), nil
+					}
+				}
+			}
+			return &interp.Unknown{Why: what + " of " + interp.Show(a[0])}, nil
+		}
+	}
+	m.Ext["go/token.IsIdentifier"] = onConst("token.IsIdentifier", token.IsIdentifier)
+	m.Ext["go/token.IsKeyword"] = onConst("token.IsKeyword", token.IsKeyword)
+	m.Ext["go/token.IsExported"] = onConst("token.IsExported", token.IsExported)
+	m.ExtVars["go/types.Universe"] = &interp.Opaque{Kind: "types.Scope", ID: "universe", GoType: "*go/types.Scope", Methods: mmap{
+		"Lookup": func(m *interp.Machine, pos token.Pos, a []interp.Value) (interp.Value, error) {
+			if s, ok := a[0].(*interp.Sym); ok {
+				if c, ok := s.Concrete(); ok {
+					if types.Universe.Lookup(c) == nil {
+						return interp.NilV{}, nil
+					}
+					return &interp.Opaque{Kind: "types.Object", ID: "universe." + c, GoType: "*go/types.TypeName", Methods: mmap{"Name": tmeth(interp.Lit(c))}}, nil
+				}
+			}
+			return &interp.Unknown{Why: "Universe.Lookup of " + interp.Show(a[0])}, nil
+		},
+	}}
+}
+
 // regNew interprets registry.New(".", moqPkg) with packages.Load replaced by a model that returns npkgs
 // abstract packages for "." (the first one carrying the given import specs and load errors) and none for
 // any other directory. It returns the world around the registry (nil if New returned none) and New's result.
@@ -110,6 +143,7 @@ func regNew(prog *load.Program, specs []importSpec, moqPkg string, typesPkg *int
 	errModels(m)
 	// identifier tokens never equal ".", "_" or ""
 	m.Distinct = func(tok, lit string) bool { return lit == "." || lit == "_" || lit == "" }
+	identifierModels(m)
 	tPkg, err := namedStructOf(prog, "golang.org/x/tools/go/packages", "Package")
 	if err != nil {
 		return nil, nil, err
@@ -562,6 +596,12 @@ func importTables(c *Ctx) {
 			if err != nil || q == "" || q == "." || q == "_" {
 				ok = false
 			}
+			// a qualifier is written as an import name and in front of every type of the package: it must be
+			// an identifier (no keyword, not digit-led) that does not take a predeclared name away from the file
+			if err == nil && (!token.IsIdentifier(q) || types.Universe.Lookup(q) != nil) {
+				ok = false
+				all = append(all, "("+q+" is not usable as a package qualifier)")
+			}
 			if other, dup := seen[q]; dup {
 				ok = false
 				all = append(all, "(same qualifier as "+other+")")
@@ -607,8 +647,21 @@ func importTables(c *Ctx) {
 		ok, all := distinctQualifiers(w)
 		return ok && len(importsOf(w).Keys) == 3, "two packages whose whole paths sanitise to the same name (the second is numbered, the first keeps its name), then a third package of that name: " + all + "; want three imports with pairwise distinct qualifiers (the one that kept its name must still be seen as holding it)"
 	})
+	// names made from path components are import aliases: identifiers, and no predeclared names (D18)
+	scenario("alias-from-a-digit-led-directory", nil, "", []step{{"example.com/m/x/2ka", "ka"}, {"example.com/m/x/3ka", "ka"}}, func(w *regWorld, r []interp.Value) (bool, string) {
+		ok, all := distinctQualifiers(w)
+		return ok && len(importsOf(w).Keys) == 2, "two packages named ka in directories 2ka and 3ka: " + all + "; want two distinct qualifiers that are Go identifiers (a directory name can start with a digit, an import name cannot)"
+	})
+	scenario("alias-from-a-directory-named-like-a-keyword", nil, "", []step{{"example.com/m/a/func", "kn"}, {"example.com/m/b/sub", "kn"}}, func(w *regWorld, r []interp.Value) (bool, string) {
+		ok, all := distinctQualifiers(w)
+		return ok && len(importsOf(w).Keys) == 2, "two packages named kn in directories func and sub: " + all + "; want two distinct qualifiers, none a keyword"
+	})
+	scenario("alias-from-a-directory-named-like-a-predeclared-type", nil, "", []step{{"example.com/m/a/string", "kn"}, {"example.com/m/b/sub", "kn"}}, func(w *regWorld, r []interp.Value) (bool, string) {
+		ok, all := distinctQualifiers(w)
+		return ok && len(importsOf(w).Keys) == 2, "two packages named kn in directories string and sub: " + all + "; want two distinct qualifiers, none a predeclared identifier (an import named string makes every `string` of the file a package name)"
+	})
 	searchLiveTable(c)
-	run.Floor("G-IMPORT/table", 9)
+	run.Floor("G-IMPORT/table", 12)
 }
 
 // searchLiveTable: the qualifier search sees an import under the qualifier it has now.
